@@ -56,6 +56,18 @@ Section WithOracle.
     end.
 
   Definition parse_datagram (msg : str) : dresult := count_lines (lines msg) 0 0 0.
+
+  (* DatagramParser.Run over a sequence of datagrams: the counters accumulate (atomic adds
+     after each batch); a panic in any datagram ends the process, later ones are never read *)
+  Fixpoint parse_stream (msgs : list str) (m e b : N) : dresult :=
+    match msgs with
+    | [] => DCounts m e b
+    | msg :: r =>
+        match parse_datagram msg with
+        | DPanic => DPanic
+        | DCounts m' e' b' => parse_stream r (m + m') (e + e') (b + b')
+        end
+    end.
 End WithOracle.
 
 (* ---- specification vocabulary ---- *)
@@ -73,6 +85,11 @@ Fixpoint open_tail (msg : str) : bool :=
   | [] => false
   | b :: r => match r with [] => negb (b =? c_nl) | _ => open_tail r end
   end.
+
+Definition line_count (msg : str) : N := count_nl msg + (if open_tail msg then 1 else 0).
+
+Fixpoint total_lines (msgs : list str) : N :=
+  match msgs with [] => 0 | msg :: r => line_count msg + total_lines r end.
 
 (* classification of lexer outcomes, to state which counter a line goes to *)
 Definition is_metric (o : outcome) : bool := match o with OMetric _ => true | _ => false end.
